@@ -9,7 +9,16 @@ import (
 	"verif/sim/core"
 )
 
+var extra = map[string]func() core.Property{}
+
+// Register adds an engine that only some binaries link (C18 needs the test
+// binary for testing/synctest).
+func Register(id string, f func() core.Property) { extra[id] = f }
+
 func Get(id string) core.Property {
+	if f := extra[id]; f != nil {
+		return f()
+	}
 	switch id {
 	case "C08":
 		return c08.New()
